@@ -1933,3 +1933,116 @@ func fieldType(target *types.Named, name string) types.Type {
 	}
 	return types.Typ[types.Invalid]
 }
+
+// R-SIGCHAN (C06): the channels of the client's signal table belong to the caller; the client sends emitted signals on
+// them and closes them when the run ends. A close that can run concurrently with a send panics ("send on closed
+// channel"), and a send that waits for the caller while the state mutex is held blocks everything that needs the
+// mutex (R-BLOCKLOCK). Both are excluded when every send and every close of such a channel is confined to the read
+// loop's goroutine: they are then sequential, and no lock is needed across the send. Obligations: every send on and
+// every close of a channel looked up in the signal table. Discharge: the site's function is reachable from the read
+// loop and from nowhere else (no function outside the read loop's call tree calls into the part of the tree that
+// contains it); or, failing that for any site, every site holds the state mutex.
+func (c *Ctx) ruleSigChan(rule string) {
+	ro := c.roles()
+	if !ro.ok || ro.readLoop == nil || ro.sigTable == "" {
+		c.R.Unresolved(rule, "read loop / signal table of the ATP client")
+		return
+	}
+	inTree := c.M.Reachable([]*ssa.Function{ro.readLoop}, nil)
+	var entered []*ssa.Function
+	for _, fn := range c.M.Funcs {
+		if inTree[fn] {
+			continue
+		}
+		for _, e := range c.M.Edges(fn) {
+			if inTree[e.To] && e.To != ro.readLoop {
+				entered = append(entered, e.To)
+			}
+		}
+	}
+	shared := c.M.Reachable(entered, nil)
+	fromTable := func(v ssa.Value) bool {
+		seen := map[ssa.Value]bool{}
+		var walk func(v ssa.Value) bool
+		walk = func(v ssa.Value) bool {
+			if seen[v] {
+				return false
+			}
+			seen[v] = true
+			switch x := v.(type) {
+			case *ssa.Extract:
+				return walk(x.Tuple)
+			case *ssa.Lookup:
+				return strings.HasSuffix(c.M.ValPath(x.X), "."+ro.sigTable)
+			case *ssa.Phi:
+				for _, e := range x.Edges {
+					if walk(e) {
+						return true
+					}
+				}
+			case *ssa.ChangeType:
+				return walk(x.X)
+			}
+			return false
+		}
+		return walk(v)
+	}
+	type site struct {
+		fn   *ssa.Function
+		in   ssa.Instruction
+		what string
+	}
+	var sites []site
+	for _, fn := range c.M.SortedFuncs(c.scopePkg("atp")) {
+		for _, b := range fn.Blocks {
+			for _, in := range b.Instrs {
+				switch x := in.(type) {
+				case *ssa.Send:
+					if fromTable(x.Chan) {
+						sites = append(sites, site{fn, in, "send"})
+					}
+				case *ssa.Call:
+					if bi, ok := x.Call.Value.(*ssa.Builtin); ok && bi.Name() == "close" && len(x.Call.Args) == 1 && fromTable(x.Call.Args[0]) {
+						sites = append(sites, site{fn, in, "close"})
+					}
+				}
+			}
+		}
+	}
+	allConfined, allLocked := true, true
+	stateMutex := ro.mutexOf[ro.clientT]
+	locked := func(s site) bool {
+		for _, l := range c.lockedAt(s.fn, s.in) {
+			if strings.HasSuffix(l, "."+stateMutex) {
+				return true
+			}
+		}
+		return false
+	}
+	for _, s := range sites {
+		if !(inTree[s.fn] && !shared[s.fn]) {
+			allConfined = false
+		}
+		if !locked(s) {
+			allLocked = false
+		}
+	}
+	cnt := map[string]int{}
+	for _, s := range sites {
+		cnt[c.M.Key(s.fn)+s.what]++
+		k := key(rule, c.M.Key(s.fn), sprintf("%s #%d on a channel of the signal table", s.what, cnt[c.M.Key(s.fn)+s.what]))
+		confined := inTree[s.fn] && !shared[s.fn]
+		switch {
+		case allConfined:
+			c.R.Ok(rule, k, c.M.InstrPos(s.in), "send / close of a caller's signal channel", "every send and close of these channels is confined to the read loop's goroutine: they are sequential, a close cannot hit a send in flight")
+		case allLocked:
+			c.R.Ok(rule, k, c.M.InstrPos(s.in), "send / close of a caller's signal channel", "every send and close holds the state mutex")
+		case confined || locked(s):
+			c.R.Ok(rule, k, c.M.InstrPos(s.in), "send / close of a caller's signal channel", "this site is confined / locked; the offending site is reported")
+		default:
+			c.R.Bad(rule, k, c.M.InstrPos(s.in), "a caller's signal channel is used outside the read loop's goroutine without the state mutex",
+				"the read loop sends emitted signals on this channel without holding the mutex, relying on being the only goroutine that closes it; a "+s.what+" from another goroutine can hit a send in flight ('send on closed channel' kills the process) or deliver after the close")
+		}
+	}
+	c.R.Floor(rule, 2)
+}
